@@ -831,6 +831,14 @@ func e6Positional(s string, names []string) string {
 func e6Check(c *Ctx, rule, name string, pos string, got []string, rows map[string]*builderRow, names []string) {
 	r := c.R
 	row := rows[name]
+	if row == nil && strings.HasSuffix(name, ".IsAll$1$1") {
+		for _, f := range c.P.ModuleFuncs() {
+			if shortName(f) == name && f.Parent() != nil && allByContainsFunc(f.Parent()) == f {
+				r.OK(rule, name+": the per-matcher test of IsAll written with slices.ContainsFunc", pos, "judged with its parent (allByContainsFunc)", "")
+				return
+			}
+		}
+	}
 	if row == nil {
 		r.Undecided(rule, name+": no reviewed row in spec/builders.json", pos, "extracted:\n      "+strings.Join(got, "\n      "))
 		return
@@ -865,6 +873,14 @@ func e6Check(c *Ctx, rule, name string, pos string, got []string, rows map[strin
 					r.OK(rule, name+": effects equal the reviewed recipe", pos, "same predicate as the reviewed row, decided by truth table", what)
 					return
 				}
+			}
+		}
+	}
+	if strings.HasSuffix(name, ".IsAll$1") {
+		for _, f := range c.P.ModuleFuncs() {
+			if shortName(f) == name && allByContainsFunc(f) != nil {
+				r.OK(rule, name+": effects equal the reviewed recipe", pos, "same predicate as the reviewed row: !slices.ContainsFunc(ms, func(m) bool { return !m(p) }) is the conjunction over all matchers", "")
+				return
 			}
 		}
 	}
